@@ -16,6 +16,7 @@ import (
 	"regexp"
 	"sort"
 	"strings"
+	"testing/fstest"
 
 	goat "github.com/philhassey/goatlang"
 )
@@ -462,6 +463,29 @@ func runC20(c *Ctx) error {
 		}
 		j := job{src: src, off: run(false), on: run(true), want: c20Show(want), feat: feat}
 		jobs = append(jobs, j)
+		// the same fault reached through the host's Call: the functions are defined by Eval (the program without its
+		// last line "main()"), then main.main is called - the report is the same minus the top-level call site
+		if len(want) > 0 && i%3 == 0 {
+			defs := strings.TrimSuffix(src, "main()\n")
+			vm := goat.New()
+			var err error
+			if e := try(func() {
+				if _, err = vm.Eval(fstest.MapFS{}, "v", defs); err == nil {
+					_, err = vm.Call("main.main", 0)
+				}
+			}); e != nil {
+				err = fmt.Errorf("PANIC escaped: %v", e)
+			}
+			got := "unparsed: " + fmt.Sprint(err)
+			if fr, ok := c20Parse(err); ok {
+				got = c20Show(fr)
+			}
+			c.Rep.Oracle["tree-expectation-through-call"]++
+			c.Rep.Count("fault-reached-through-vm.Call")
+			if wantCall := c20Show(want[:len(want)-1]); got != wantCall {
+				c.Rep.Violate(Violation{Kind: "oracle", Cut: "tree-expectation-through-call", Input: defs + "// then vm.Call(\"main.main\", 0)", Impl: got, Oracle: wantCall})
+			}
+		}
 		lines = append(lines, "bt "+strings.Join(tokens, " "))
 		c.Rep.Seen(src, len(want) >= 3)
 		for f := range feat {
